@@ -184,9 +184,16 @@ pub fn run(ctx: &Ctx, rep: &mut Report) {
             _ => Some(Schedule::EveryK(1 + rng.below(7))),
         };
         let log = Rc::new(RefCell::new(AuditLog::default()));
-        if let Some(s) = &sched {
-            install(&mut vm, s, log.clone(), 3000);
-        }
+        // the auditor observes every collection, scheduled, forced or natural
+        install(&mut vm, sched.as_ref().unwrap_or(&Schedule::Never), log.clone(), 3000);
+        let audited_gc = |vm: &mut MwVm| -> Result<(), String> {
+            vm.vm.verif_force_gc();
+            if log.borrow().findings.is_empty() {
+                Ok(())
+            } else {
+                Err("AUDIT".into())
+            }
+        };
         let setup = format!("{} {}", p1.0, p2.0);
         let result: Result<bool, String> = (|| {
             eval_ok(&mut vm, &setup)?;
@@ -194,7 +201,7 @@ pub fn run(ctx: &Ctx, rep: &mut Report) {
                 0 => eval_bool(&mut vm, &format!("(eq? {} {})", p1.1, p2.1)),
                 1 => {
                     eval_ok(&mut vm, &format!("(define y1 {})", p1.1))?;
-                    vm.vm.verif_force_gc();
+                    audited_gc(&mut vm)?;
                     eval_ok(&mut vm, &format!("(define y2 {})", p2.1))?;
                     // and the other inverse law on a symbol from this route
                     match eval_bool(&mut vm, "(eq? (string->symbol (symbol->string y1)) y1)") {
@@ -208,15 +215,15 @@ pub fn run(ctx: &Ctx, rep: &mut Report) {
                     // the first production is dropped and collected before the second one (intern table edited)
                     eval_ok(&mut vm, &format!("(define y0 {})", p1.1))?;
                     eval_ok(&mut vm, "(set! y0 #f)")?;
-                    vm.vm.verif_force_gc();
-                    vm.vm.verif_force_gc();
+                    audited_gc(&mut vm)?;
+                    audited_gc(&mut vm)?;
                     eval_ok(&mut vm, &format!("(define y1 {})", p1.1))?;
                     eval_ok(&mut vm, &format!("(define y2 {})", p2.1))?;
                     eval_bool(&mut vm, "(eq? y1 y2)")
                 }
                 _ => {
                     eval_ok(&mut vm, &format!("(define ys (list {} {}))", p1.1, p2.1))?;
-                    vm.vm.verif_force_gc();
+                    audited_gc(&mut vm)?;
                     eval_bool(&mut vm, "(eq? (car ys) (car (cdr ys)))")
                 }
             }
